@@ -2347,7 +2347,7 @@ main(int argc, char** argv)
   std::vector<int> kinds;
   if (thorough)
     {
-      for (int rep = 0; rep < 5; ++rep)
+      for (int rep = 0; rep < 10; ++rep)
         for (int k : { 0, 0, 0, 1, 1, 2, 3, 0 })
           kinds.push_back(k);
     }
@@ -2407,7 +2407,7 @@ main(int argc, char** argv)
       run_on_the_fly(w, rng, thorough, true);
       run_on_the_fly(w, rng, thorough, false);
     }
-  for (int k = 0; k < (thorough ? 40 : 10); ++k)
+  for (int k = 0; k < (thorough ? 120 : 10); ++k)
     {
       World w;
       try
